@@ -12,7 +12,8 @@
 (*                              vis: 0 plain, 1 show, 2 save_report, 3 both*)
 (*   <<"bulk", shape, mode, vr, save>> a bulk call over both slots; shape  *)
 (*                              picks the order / arity mix                *)
-(*   <<"cli">>                  an in-process CLI run on a small sheet     *)
+(*   <<"cli", k>>               an in-process CLI run on a small sheet     *)
+(*                              with the k-th option set (default-bg ...)  *)
 (***************************************************************************)
 EXTENDS Integers, Sequences
 CONSTANTS Depth, NP, Vis, Modes, WithCli
@@ -20,7 +21,7 @@ Slots == 1..NP
 FixOps == {<<"fix", p, m, v, s>> : p \in Slots, m \in Modes, v \in BOOLEAN, s \in Vis}
 BulkOps == {<<"bulk", sh, m, v, sv>> : sh \in 1..3, m \in Modes, v \in BOOLEAN, sv \in {FALSE}}
 Ops == FixOps \cup BulkOps \cup {<<"new", p>> : p \in Slots} \cup {<<"readable", p>> : p \in Slots}
-       \cup (IF WithCli THEN {<<"cli">>} ELSE {})
+       \cup (IF WithCli THEN {<<"cli", k>> : k \in 1..3} ELSE {})     \* k: which option set the command is run with
 VARIABLE hist
 Init == hist = <<>>
 Next == Len(hist) < Depth /\ \E o \in Ops : hist' = Append(hist, o)
